@@ -43,6 +43,13 @@ def handle (j : Json) : R Json := do
     let mut s := init
     let mut outs : Array Json := #[]
     for o in ops do
+      -- every identifier the model may hand to `parse` must be in the oracle table
+      let idb? : Option Bytes := match o with
+        | .setup idb _ => some idb
+        | .req r => (Hap.Tlv.decode r.body []).bind fun objs => aget objs tUser
+      if let some idb := idb? then
+        if (tbl.getObjVal? (toHex idb)).toOption.isNone then
+          throw s!"parse table has no entry for id {toHex idb}"
       let (s', r, wrote) := step parse s o
       let doc ← if wrote then do
           let a ← identOf identJ s'
